@@ -200,6 +200,31 @@ func genQRCase(t *rapid.T) QRCase {
 			content[p] = rapid.SampledFrom([]byte{'+', '-', '_', ' ', 'x', 'e', '.', 0xFF, 0x80, '*', 'a'}).Draw(t, "hostile")
 		}
 	}
+	// valid UTF-8 text beyond Latin-1 (Cyrillic, Latin Extended, Greek, CJK, emoji), alone or mixed with the
+	// 45-character set: must be byte mode in Auto and rejected by Numeric/AlphaNumeric
+	if rapid.IntRange(0, 11).Draw(t, "unicode") == 0 {
+		nr := rapid.IntRange(1, 24).Draw(t, "nrunes")
+		var sb []rune
+		for i := 0; i < nr; i++ {
+			switch rapid.IntRange(0, 7).Draw(t, "rk") {
+			case 0:
+				sb = append(sb, rune(qrAlnumSet[rapid.IntRange(0, 44).Draw(t, "a")]))
+			case 1:
+				sb = append(sb, rune(rapid.IntRange(0x80, 0xFF).Draw(t, "latin1")))
+			case 2:
+				sb = append(sb, rune(rapid.IntRange(0x100, 0x17F).Draw(t, "latinext")))
+			case 3, 4:
+				sb = append(sb, rune(rapid.IntRange(0x410, 0x44F).Draw(t, "cyrillic")))
+			case 5:
+				sb = append(sb, rune(rapid.IntRange(0x391, 0x3C9).Draw(t, "greek")))
+			case 6:
+				sb = append(sb, rune(rapid.IntRange(0x4E00, 0x4E7F).Draw(t, "cjk")))
+			default:
+				sb = append(sb, rune(rapid.IntRange(0x1F600, 0x1F64F).Draw(t, "emoji")))
+			}
+		}
+		content = []byte(string(sb))
+	}
 	c.Content = BStr(content)
 	return c
 }
